@@ -408,7 +408,7 @@ def _run_batch(case):
     return sched.run_batch(case, _arr(sc))
 
 
-def run_impl(case):
+def _run_impl(case):
     ok, got = _static_tie()
     if not ok:
         return dict(kind=case['kind'], tie='ts_props names differ from the model: %s' % got)
@@ -420,6 +420,19 @@ def run_impl(case):
     obs = sched.run_arrangement(case)
     obs['kind'] = 'arr'
     return obs
+
+
+def run_impl(case):
+    obs = _run_impl(case)
+    first = sched.COMPLAINTS.get(json.dumps(case, sort_keys=True))
+    if first and isinstance(obs, dict):
+        obs['first_complaint'] = first       # (a replay file is written from a re-run: keep what was said first)
+    return obs
+
+
+def oracle(case, obs):
+    # wall-clock limits are not verdicts: see sched.judge
+    return sched.judge(case, obs, _run_impl, _oracle)
 
 
 def encode(case):
@@ -443,7 +456,7 @@ def project(obs, case):
     return dict(kind=case['kind'], outs=obs.get('trace_outs', []))
 
 
-def oracle(case, obs):
+def _oracle(case, obs):
     if obs.get('tie'):
         return obs['tie']
     if 'escaped' in obs:
